@@ -144,9 +144,24 @@ def confirm_timeout(specs, verdict, factor=3):
     return again
 
 
+def _classify_safe(specs, limit_s=None):
+    """classify; a time-limit exception that fires outside the region where classify catches it (in a handler, in the
+    `finally`, between arming the timers and entering the `try`) becomes the same verdict instead of escaping: out of a
+    pool worker it would take the whole pool down (BrokenProcessPool)"""
+    try:
+        return classify(specs, limit_s) if limit_s else classify(specs)
+    except _Timeout as e:
+        try:
+            signal.setitimer(signal.ITIMER_PROF, 0)
+            signal.alarm(0)
+        except _Timeout:
+            pass
+        return {'k': 'crash', 'exc': 'Timeout', 'where': e.where, 'clock': e.clock, 'limit_s': limit_s or 20, 'stray': True}
+
+
 def _classify_many(batch):
     core.ensure_repo_on_path()
-    return [classify(s, limit_s) if limit_s else classify(s) for s, limit_s in batch]
+    return [_classify_safe(s, limit_s) for s, limit_s in batch]
 
 
 def run_parallel(cases, workers=None, chunk=40, limits=None):
